@@ -207,10 +207,17 @@ impl SimConnection {
         match command {
             Some(ProtocolCommand::OpenSubstream { protocol, fallback_names, substream_id, permit, keep_alive, .. }) => {
                 let control = self.control.clone();
+                // environment fault (not in the TCP file): this stream's opening can be held back by the explorer,
+                // standing for a slow round trip / a remote that is slow to negotiate this one stream
+                let released = self.script.opens_released();
+                let protocol2 = protocol.clone();
                 self.pending_substreams.push(Box::pin(async move {
                     match tokio::time::timeout(
                         SUBSTREAM_OPEN_TIMEOUT,
-                        Self::open_substream(control, substream_id, permit, keep_alive, protocol.clone(), fallback_names),
+                        async move {
+                            released.await;
+                            Self::open_substream(control, substream_id, permit, keep_alive, protocol2, fallback_names).await
+                        },
                     )
                     .await
                     {
